@@ -4,7 +4,7 @@ from . import semjobs
 from .bddprops import ASSUMPTIONS
 
 BOUNDS = ('ADF families F(n,S,seed): n=2 with all statements symbolic (the complete space of 256 ADFs); n=3 with |S|=1 symbolic statement '
-          '(256 functions) in concrete contexts drawn from VERIF_SEED; thorough adds n=3 |S|=2 (65 536 ADFs per family) and n=4 |S|=1 (not for complete models). '
+          '(256 functions) in concrete contexts drawn from VERIF_SEED; thorough adds, for the first procedure listed, n=3 |S|=2 (65 536 ADFs per family) and n=4 |S|=1 (not for complete models). '
           'Diagrams are built through the real Bdd::node (Shannon expansion); MIR step fuel per path as configured. Procedures named bio/<p> run on adfbiodivine::Adf '
           'whose conditions are the symbolic tables (values of the biodivine contract model), hyb/<p> and hybraw/<p> on the naive Adf delivered by the real '
           'hybrid_step() / hybrid_step_opt(false) from it.')
